@@ -166,6 +166,35 @@ func (p *Pool) Allocate(mac net.HardwareAddr) (net.IP, error) {
 	return ip, nil
 }
 
+// Reserve binds ip to mac when a client asks for a specific address (DHCPREQUEST
+// without an existing lease). It succeeds only if ip is already held by mac or is
+// on the free list, so an address that is held by another client, is the gateway,
+// network or broadcast address, is reserved, or was declined is refused. A holding
+// the client had on a different address goes back to the free list.
+func (p *Pool) Reserve(mac net.HardwareAddr, ip net.IP) bool {
+	p.mu.Lock()
+	defer p.mu.Unlock()
+
+	macStr := mac.String()
+	current, held := p.allocated[macStr]
+	if held && current.Equal(ip) {
+		return true
+	}
+
+	for i, avail := range p.available {
+		if avail.Equal(ip) {
+			p.available = append(p.available[:i], p.available[i+1:]...)
+			if held {
+				p.available = append(p.available, current)
+			}
+			p.allocated[macStr] = avail
+			return true
+		}
+	}
+
+	return false
+}
+
 // Release releases an IP back to the pool
 func (p *Pool) Release(ip net.IP) {
 	p.mu.Lock()
